@@ -85,4 +85,51 @@ proof fn lemma_chars_append(a: Seq<char>, b: Seq<char>)
         assert(seq![a[0] as int] + (json_chars(a.skip(1)).unwrap() + json_chars(b).unwrap()) =~= (seq![a[0] as int] + json_chars(a.skip(1)).unwrap()) + json_chars(b).unwrap());
     }
 }
+
+// ---- what one step of the writer may append, by shape (each decodes to exactly one code point)
+pub open spec fn esc2_code(x: char) -> int { if x == '\\' { 0x5C } else if x == '"' { 0x22 } else if x == '/' { 0x2F } else if x == 'b' { 8 } else if x == 'f' { 0xC } else if x == 'n' { 0xA } else if x == 'r' { 0xD } else if x == 't' { 9 } else { -1 } }
+proof fn lemma_shape_plain(c: char)
+    requires c != '"', c != '\\', (c as u32) >= 0x20
+    ensures json_chars(seq![c]) == Some(seq![c as int])
+{
+    reveal_with_fuel(json_chars, 2);
+    assert(seq![c].skip(1) =~= Seq::<char>::empty());
+    assert(seq![c as int] + Seq::<int>::empty() =~= seq![c as int]);
+}
+proof fn lemma_shape_esc2(x: char)
+    requires esc2_code(x) >= 0
+    ensures json_chars(seq!['\\', x]) == Some(seq![esc2_code(x)])
+{
+    let code = esc2_code(x);
+    reveal_with_fuel(json_chars, 2);
+    assert(seq!['\\', x].skip(2) =~= Seq::<char>::empty());
+    assert(seq![code] + Seq::<int>::empty() =~= seq![code]);
+}
+proof fn lemma_shape_u4(h3: char, h2: char, h1: char, h0: char)
+    requires hex_val(h3) >= 0, hex_val(h2) >= 0, hex_val(h1) >= 0, hex_val(h0) >= 0,
+        !(0xD800 <= hex_val(h3) * 4096 + hex_val(h2) * 256 + hex_val(h1) * 16 + hex_val(h0) <= 0xDFFF),
+    ensures json_chars(seq!['\\', 'u', h3, h2, h1, h0]) == Some(seq![hex_val(h3) * 4096 + hex_val(h2) * 256 + hex_val(h1) * 16 + hex_val(h0)])
+{
+    reveal_with_fuel(json_chars, 2);
+    let code = hex_val(h3) * 4096 + hex_val(h2) * 256 + hex_val(h1) * 16 + hex_val(h0);
+    assert(seq!['\\', 'u', h3, h2, h1, h0].skip(6) =~= Seq::<char>::empty());
+    assert(seq![code] + Seq::<int>::empty() =~= seq![code]);
+}
+/// a piece of one of the known shapes: its denotation (None if the piece is of no known shape)
+pub open spec fn piece_code(p: Seq<char>) -> Option<int> {
+    if p.len() == 1 { if p[0] != '"' && p[0] != '\\' && (p[0] as u32) >= 0x20 { Some(p[0] as int) } else { None } }
+    else if p.len() == 2 && p[0] == '\\' { if esc2_code(p[1]) >= 0 { Some(esc2_code(p[1])) } else { None } }
+    else if p.len() == 6 && p[0] == '\\' && p[1] == 'u' && hex_val(p[2]) >= 0 && hex_val(p[3]) >= 0 && hex_val(p[4]) >= 0 && hex_val(p[5]) >= 0
+        && !(0xD800 <= hex_val(p[2]) * 4096 + hex_val(p[3]) * 256 + hex_val(p[4]) * 16 + hex_val(p[5]) <= 0xDFFF) {
+        Some(hex_val(p[2]) * 4096 + hex_val(p[3]) * 256 + hex_val(p[4]) * 16 + hex_val(p[5])) }
+    else { None }
+}
+proof fn lemma_piece(p: Seq<char>)
+    requires piece_code(p).is_some()
+    ensures json_chars(p) == Some(seq![piece_code(p).unwrap()])
+{
+    if p.len() == 1 { assert(p =~= seq![p[0]]); lemma_shape_plain(p[0]); }
+    else if p.len() == 2 { assert(p =~= seq![p[0], p[1]]); lemma_shape_esc2(p[1]); }
+    else { assert(p =~= seq![p[0], p[1], p[2], p[3], p[4], p[5]]); lemma_shape_u4(p[2], p[3], p[4], p[5]); }
+}
 } // verus!
